@@ -51,7 +51,10 @@ type c32Case struct {
 	// Clean = unperturbed stream, Want = frames from the first keyframe on
 	Clean bool       `json:"clean"`
 	Want  []c32Frame `json:"want,omitempty"`
-	Note  string     `json:"note,omitempty"`
+	// Reuse: each writer is fed from ONE receive buffer that is overwritten as
+	// soon as WriteRTP has returned (mediafeed_util.go)
+	Reuse bool   `json:"reuse,omitempty"`
+	Note  string `json:"note,omitempty"`
 }
 
 var c32Mime = []string{"video/VP8", "video/VP9", "video/AV1"}
@@ -268,14 +271,15 @@ func c32Run(c c32Case) (V, Verdict) {
 	}
 	statuses := []byte{0}
 	nerr := 0
+	// one feeder (one receive buffer) per writer: a frame is assembled from
+	// several packets, so whatever the writer keeps between WriteRTP calls must
+	// be its own copy
+	feedS, feedP := &mfFeeder{reuse: c.Reuse}, &mfFeeder{reuse: c.Reuse}
 	for _, p := range c.Pkts {
 		raw, _ := hex.DecodeString(p.Payload)
-		mk := func() *rtp.Packet {
-			return &rtp.Packet{Header: rtp.Header{Version: 2, Timestamp: p.TS, Marker: p.Marker},
-				Payload: append([]byte(nil), raw...)}
-		}
-		e1 := ws.WriteRTP(mk())
-		e2 := wp.WriteRTP(mk())
+		h := rtp.Header{Version: 2, Timestamp: p.TS, Marker: p.Marker}
+		e1 := feedS.feed(ws.WriteRTP, h, raw)
+		e2 := feedP.feed(wp.WriteRTP, h, raw)
 		if (e1 == nil) != (e2 == nil) {
 			return VS("write-differs"), Fail("write-depends-on-output-kind", fmt.Sprintf("%v vs %v", e1, e2))
 		}
@@ -300,6 +304,11 @@ func c32Run(c c32Case) (V, Verdict) {
 	cleanTag := "perturbed"
 	if c.Clean {
 		cleanTag = "clean"
+	}
+	if c.Reuse {
+		cleanTag += "/reused-buffer"
+	} else {
+		cleanTag += "/fresh-payloads"
 	}
 	ws1, wp1 := c32WalkFile(seek.b), c32WalkFile(plain.b)
 	if !ws1.ok || !wp1.ok || ws1.tail != 0 || wp1.tail != 0 {
@@ -664,6 +673,7 @@ func c32GenCodec(r *Rand, codec int) c32Case {
 	if r.Chance(1, 4) && len(c.Pkts) > 0 {
 		c32Perturb(r, &c)
 	}
+	c.Reuse = r.Chance(2, 3)
 	return c
 }
 
@@ -737,6 +747,14 @@ func c32Corpus() []c32Case {
 			Pkts: []c32Pkt{{TS: 10, Marker: true, Payload: vp8Inter}, {TS: 3010, Marker: true, Payload: vp8Key},
 				{TS: 6010, Marker: true, Payload: vp8Inter}},
 			Want: []c32Frame{{Hex: "9c01020304", TS: 3010}, {Hex: "9d0708", TS: 6010}}},
+		// witness of the repaired defect: an AV1 OBU split over two packets, fed out
+		// of one receive buffer (before the fix AV1Depacketizer kept the first
+		// fragment as a sub-slice of the caller's payload: the file had the filler
+		// bytes in its place and the second packet was refused)
+		{Codec: 2, W: 640, H: 480, Num: 1, Den: 30, Clean: true, Reuse: true, Note: "av1-fragmented-obu-receive-loop",
+			Pkts: []c32Pkt{{TS: 9000, Payload: "58" + "080102"}, {TS: 9000, Marker: true, Payload: "90" + "0304"},
+				{TS: 12000, Marker: true, Payload: "10" + "30aabb"}},
+			Want: []c32Frame{{Hex: "1200" + "0a0401020304", TS: 9000}, {Hex: "1200" + "3202aabb", TS: 12000}}},
 		// zero denominator: NewWith refuses after writing the header
 		{Codec: 2, W: 3, H: 4, Num: 1, Den: 0, Note: "zero-denominator"},
 		// zero numerator: written, refused by the reader
@@ -851,7 +869,22 @@ func init() {
 				for _, c := range c32Corpus() {
 					if c.Codec == codec {
 						out = append(out, c)
+						if c.Clean && !c.Reuse { // the same stream out of the reused receive buffer
+							c.Reuse, c.Note = true, c.Note+"receive-loop"
+							out = append(out, c)
+						}
 					}
+				}
+				// receive-loop witnesses: clean multi-packet streams of this codec
+				// (frames assembled across several WriteRTP calls) out of one buffer
+				for k, n := uint64(1), 0; n < 3 && k < 400; k++ {
+					c := c32GenCodec(NewRand(0xc32<<20+k), codec)
+					if !c.Clean || len(c.Want) < 2 || len(c.Pkts) < 2*len(c.Want) || len(c.Pkts) > 60 || c.Num == 0 || c.Den == 0 {
+						continue
+					}
+					c.Reuse, c.Note = true, "receive-loop"
+					out = append(out, c)
+					n++
 				}
 				return out
 			},
